@@ -10,27 +10,45 @@
 (* returns (Out).  Here the rounds of CoinN.tla are recomputed from the     *)
 (* polynomials; stored commitments, Qual, verdict and coin of every party   *)
 (* must be what the rounds yield, and the property is evaluated on the      *)
-(* logged outputs.  Strict selects the protocol as designed (TRUE) or       *)
-(* without the rule that an unanswered complaint disqualifies (FALSE).      *)
+(* logged outputs.  Rounds 3 and 4 are computed twice: for the protocol as   *)
+(* designed and without the rule that an unanswered complaint disqualifies; *)
+(* an execution has to match one of them, and which one is reported.        *)
 (***************************************************************************)
 EXTENDS CoinN, Json, IOUtils, TLC, TLCExt
-
-CONSTANT Strict
 
 TraceFile == IF "TRACE" \in DOMAIN IOEnv THEN IOEnv.TRACE ELSE "trace.ndjson"
 TraceLog == ndJsonDeserialize(TraceFile)
 
-VARIABLES W, r1, r2, r3, r4, outs, l
-tvars == <<W, r1, r2, r3, r4, outs, l>>
+VARIABLES W, r1, r2,
+          ms,      \* [r3, r4]: rounds 3 and 4 of the protocol as designed
+          mi,      \* ... and without the rule "an unanswered complaint disqualifies"
+          okS, okI,\* the events of this execution so far match the one / the other
+          outs,    \* logged outputs of the parties that run the protocol as written
+          opened,  \* parties whose share has gone on the wire (Open event seen)
+          notes,   \* executions that match only the protocol without the rule: [at, disagree]
+          cur, l
+tvars == <<W, r1, r2, ms, mi, okS, okI, outs, opened, notes, cur, l>>
 
 Ev == TraceLog[l]
 IsEv(name) == l <= Len(TraceLog) /\ Ev.e = name
 SetOf(s) == {s[k] : k \in 1..Len(s)}
 
-TInit == l = 1 /\ W = 0 /\ r1 = 0 /\ r2 = 0 /\ r3 = 0 /\ r4 = 0 /\ outs = <<>>
+\* C17 on the logged outputs: all honest participants output the same value, the sum of the committed shares of
+\* the qualified participants (an opening that does not match having led to reconstruction of the committed share)
+OutputsOK(m) == \A a, b \in 1..Len(outs) : outs[a].res =>
+                   /\ outs[a].coin = m.r4.committed
+                   /\ outs[b].res => outs[a].coin = outs[b].coin
+\* with a tolerable number of deviating parties every fault-free party gets a coin
+LiveOK == Tolerable(W) => \A a \in 1..Len(outs) : outs[a].i \in Clean(W) => outs[a].res
+
+TInit == /\ l = 1 /\ W = 0 /\ r1 = 0 /\ r2 = 0 /\ ms = 0 /\ mi = 0 /\ okS = TRUE /\ okI = TRUE
+         /\ outs = <<>> /\ opened = {} /\ notes = <<>> /\ cur = 0
+
+Flush == notes' = IF cur > 0 /\ ~okS THEN Append(notes, [at |-> cur, disagree |-> ~(OutputsOK(mi) /\ LiveOK)]) ELSE notes
 
 TReset ==
   /\ IsEv("Reset")
+  /\ Flush
   /\ W' = [n |-> Ev.n, t |-> Ev.t,
            G |-> [p |-> Ev.grp[1], q |-> Ev.grp[2], g |-> Ev.grp[3], h |-> Ev.grp[4]],
            poly |-> Ev.poly,
@@ -40,44 +58,56 @@ TReset ==
   /\ GoodGroup(W'.G) /\ W'.n < W'.G.q
   /\ r1' = Round1(W')
   /\ r2' = Round2(W', r1')
-  /\ r3' = Round3(W', r1', r2', Strict)
-  /\ r4' = Round4(W', r1', r3')
-  /\ outs' = <<>>
+  /\ LET s3 == Round3(W', r1', r2', TRUE)  i3 == Round3(W', r1', r2', FALSE) IN
+     /\ ms' = [r3 |-> s3, r4 |-> Round4(W', r1', s3)]
+     /\ mi' = [r3 |-> i3, r4 |-> Round4(W', r1', i3)]
+  /\ okS' = TRUE /\ okI' = TRUE /\ outs' = <<>> /\ opened' = {} /\ cur' = l
   /\ l' = l + 1
 
 \* party i puts its share on the wire: by then it has stored the commitment of every other qualified party
 \* (and knows who is qualified); what it reveals is the share it committed to
+OpenMatches(m) ==
+  LET i == Ev.i IN
+  Dv(W, i).checked =>
+     /\ SetOf(Ev.qual) = m.r3.qual
+     /\ i \in m.r3.qual
+     /\ Ev.a = Num(Pl(W, i).c[1])
+     /\ \A j \in m.r3.qual : Ev.stored[j + 1] = Num(r1.ck[j][1])
 TOpen ==
   /\ IsEv("Open")
-  /\ LET i == Ev.i IN
-     Dv(W, i).checked =>
-        /\ SetOf(Ev.qual) = r3.qual
-        /\ i \in r3.qual
-        /\ Ev.a = Num(Pl(W, i).c[1])
-        /\ \A j \in r3.qual : Ev.stored[j + 1] = Num(r1.ck[j][1])
-  /\ UNCHANGED <<W, r1, r2, r3, r4, outs>> /\ l' = l + 1
+  /\ okS' = (okS /\ OpenMatches(ms)) /\ okI' = (okI /\ OpenMatches(mi))
+  /\ okS' \/ okI'
+  /\ Ev.i \notin opened /\ opened' = opened \cup {Ev.i}
+  /\ UNCHANGED <<W, r1, r2, ms, mi, outs, notes, cur>> /\ l' = l + 1
 
+OutMatches(m) ==
+  LET i == Ev.i IN
+  Dv(W, i).checked =>
+     /\ Ev.res = m.r4.res[i]
+     /\ Ev.res => (Ev.coin = m.r4.coin[i] /\ i \in opened)      \* a coin only after the own share was revealed - on this channel, then
+     /\ SetOf(Ev.qual) = m.r3.qual
 TOut ==
   /\ IsEv("Out")
   /\ "exc" \notin DOMAIN Ev
-  /\ LET i == Ev.i IN
-     /\ Dv(W, i).checked =>
-           /\ Ev.res = r4.res[i]
-           /\ Ev.res => Ev.coin = r4.coin[i]
-           /\ SetOf(Ev.qual) = r3.qual
-     /\ outs' = IF Dv(W, i).checked THEN Append(outs, [i |-> i, res |-> Ev.res, coin |-> Ev.coin]) ELSE outs
-  /\ UNCHANGED <<W, r1, r2, r3, r4>> /\ l' = l + 1
+  /\ okS' = (okS /\ OutMatches(ms)) /\ okI' = (okI /\ OutMatches(mi))
+  /\ okS' \/ okI'
+  /\ outs' = IF Dv(W, Ev.i).checked THEN Append(outs, [i |-> Ev.i, res |-> Ev.res, coin |-> Ev.coin]) ELSE outs
+  /\ UNCHANGED <<W, r1, r2, ms, mi, opened, notes, cur>> /\ l' = l + 1
 
-TNext == TReset \/ TOpen \/ TOut
+\* the check appends one End line to every log: the executions that needed the protocol without the rule are printed
+TEnd ==
+  /\ IsEv("End")
+  /\ Flush
+  /\ PrintT(ToJson([notes |-> notes']))
+  /\ UNCHANGED <<W, r1, r2, ms, mi, okS, okI, outs, opened, cur>> /\ l' = l + 1
+
+TNext == TReset \/ TOpen \/ TOut \/ TEnd
 TSpec == TInit /\ [][TNext]_tvars
 
-\* C17 on the logged outputs: all honest participants output the same value, the sum of the committed shares of
-\* the qualified participants (an opening that does not match having led to reconstruction of the committed share)
-C17_Outputs == \A a, b \in 1..Len(outs) : outs[a].res =>
-                  /\ outs[a].coin = r4.committed
-                  /\ outs[b].res => outs[a].coin = outs[b].coin
-\* with a tolerable number of deviating parties every fault-free party gets a coin
-C17_Live == (l > 1 /\ Tolerable(W)) => \A a \in 1..Len(outs) : outs[a].i \in Clean(W) => outs[a].res
+\* the property holds on every execution that follows the protocol as designed (for the others it is evaluated
+\* on the way and reported through `notes')
+C17_Outputs == (cur > 0 /\ okS) => OutputsOK(ms)
+C17_Live == (cur > 0 /\ okS) => LiveOK
 
 Accepted == TLCGet("stats").diameter = Len(TraceLog) + 1
 =============================================================================
